@@ -13,7 +13,6 @@ package main
 
 import (
 	"go/ast"
-	"go/token"
 )
 
 func init() {
@@ -29,72 +28,11 @@ func ruleNoSuffixForAssertions(p *Prog, r *Res, rule string) {
 		return
 	}
 	info := f.Pkg.TypesInfo
-	isOpTest := func(c ast.Expr) bool {
-		be, ok := ast.Unparen(c).(*ast.BinaryExpr)
-		if !ok || be.Op != token.EQL {
-			return false
-		}
-		for _, side := range []ast.Expr{be.X, be.Y} {
-			if se, ok := ast.Unparen(side).(*ast.SelectorExpr); ok && se.Sel.Name == "InstEmptyWidth" {
-				return true
-			}
-		}
-		return false
-	}
-	// a function body that answers true exactly through the Op test: `return <test>` or `if <test> { return true }`
-	answersByOpTest := func(body *ast.BlockStmt) bool {
-		hit := false
-		inspectShallow(body, func(x ast.Node) bool {
-			switch y := x.(type) {
-			case *ast.ReturnStmt:
-				if len(y.Results) == 1 {
-					for _, d := range disjuncts(y.Results[0]) {
-						if isOpTest(d) {
-							hit = true
-						}
-					}
-				}
-			case *ast.IfStmt:
-				if len(y.Body.List) > 0 {
-					if ret, ok := y.Body.List[len(y.Body.List)-1].(*ast.ReturnStmt); ok && len(ret.Results) == 1 {
-						if id, ok := ast.Unparen(ret.Results[0]).(*ast.Ident); ok && id.Name == "true" {
-							for _, d := range disjuncts(y.Cond) {
-								if isOpTest(d) {
-									hit = true
-								}
-							}
-						}
-					}
-				}
-			}
-			return true
-		})
-		return hit
-	}
+	oi := newOpTestInfo(p)
 	isAssertionTest := func(e ast.Expr) bool {
 		for _, c := range conjuncts(e) {
-			if isOpTest(c) {
+			if oi.isTest(f, c) {
 				return true
-			}
-			call, ok := ast.Unparen(c).(*ast.CallExpr)
-			if !ok {
-				continue
-			}
-			fn := p.Callee(f.Pkg, call)
-			if fn == nil {
-				continue
-			}
-			// slices.ContainsFunc(insts, func(i) bool { return i.Op == InstEmptyWidth })
-			if fn.FullName() == "slices.ContainsFunc" && len(call.Args) == 2 {
-				if lit, ok := ast.Unparen(call.Args[1]).(*ast.FuncLit); ok && answersByOpTest(lit.Body) {
-					return true
-				}
-			}
-			// a helper of the package that answers by the test
-			if h := p.FnOfObj(fn); h != nil && h.Pkg == f.Pkg && h.Body() != nil {
-				if answersByOpTest(h.Body()) {
-					return true
-				}
 			}
 		}
 		return false
